@@ -133,6 +133,54 @@ Lemma loop_eq n c post body E out :
   end.
 Proof. reflexivity. Qed.
 
+Lemma exec_switch_eq n init tag cls E out :
+  exec (S n) (SSwitch init tag cls) E out =
+  match exec_opt n init E out with
+  | Fuel => Fuel
+  | Res ONormal E1 out1 =>
+      match eval_tag E1 tag with
+      | None => Res OPanic (restore E E1) out1
+      | Some tv =>
+          match select E1 tv cls 0 with
+          | None => Res OPanic (restore E E1) out1
+          | Some sel =>
+              match (match sel with Some i => Some i | None => default_index cls 0 end) with
+              | None => Res ONormal (restore E E1) out1
+              | Some i =>
+                  match run_clauses (exec_list n) (skipn i cls) E1 out1 with
+                  | Fuel => Fuel
+                  | Res OBreak E2 out2 => Res ONormal (restore E E2) out2
+                  | Res o E2 out2 => Res o (restore E E2) out2
+                  end
+              end
+          end
+      end
+  | Res o E1 out1 => Res o (restore E E1) out1
+  end.
+Proof. reflexivity. Qed.
+
+Lemma forallb_skipn {A} (f : A -> bool) l : forall i, forallb f l = true -> forallb f (skipn i l) = true.
+Proof.
+  induction l as [|a l IH]; intros [|i] H; simpl in *; auto.
+  apply andb_prop in H. destruct H as [_ H]. apply IH. exact H.
+Qed.
+
+Lemma run_clauses_ext X (xl : list stmt -> env -> list Z -> res) :
+  (forall l E out o E' out', xl l E out = Res o E' out' -> forallb (na X) l = true -> ext_of X E E') ->
+  forall cls E out o E' out', run_clauses xl cls E out = Res o E' out' -> forallb (na X) cls = true -> ext_of X E E'.
+Proof.
+  intros Hx. induction cls as [|c cls IH]; intros E out o E' out' H Hna; simpl in H.
+  - inversion H; subst. apply ext_refl.
+  - simpl in Hna. apply andb_prop in Hna. destruct Hna as [Hc Hcls].
+    destruct c; try (inversion H; subst; apply ext_refl).
+    simpl in Hc.
+    destruct (xl body E out) as [|o1 E1 out1] eqn:Hb; [discriminate|].
+    assert (X1 : ext_of X E (restore E E1)) by (apply ext_restore_ext; eapply Hx; eauto).
+    destruct o1; try (inversion H; subst; exact X1).
+    destruct ft; [|inversion H; subst; exact X1].
+    eapply ext_trans; [exact X1 | eapply IH; eauto].
+Qed.
+
 (** Main structural lemma of G. *)
 Definition G_ext_stmt (X : ident -> bool) (n : nat) : Prop :=
   (forall s E out o E' out', exec n s E out = Res o E' out' -> na X s = true -> ext_of X E E') /\
@@ -148,7 +196,7 @@ Proof.
     { intros s E out o E' out' H Hna. destruct s as [s|]; simpl in H; [eapply IHe; eauto | inversion H; subst; apply ext_refl]. }
     repeat split.
     + (* exec *)
-      intros s E out o E' out' H Hna. destruct s; rewrite ?exec_if_eq, ?exec_for_eq in H; simpl in H.
+      intros s E out o E' out' H Hna. destruct s; rewrite ?exec_if_eq, ?exec_for_eq, ?exec_switch_eq in H; simpl in H.
       * destruct (aeval E e); inversion H; subst; [|apply ext_refl].
         apply ext_update. simpl in Hna. apply negb_false_of_true. exact Hna.
       * destruct (aeval E e); inversion H; subst; [apply ext_push | apply ext_refl].
@@ -178,6 +226,18 @@ Proof.
         destruct (loop n c post body E1 out1) as [|o2 E2 out2] eqn:Hl; [discriminate|]. inversion H; subst.
         apply ext_restore_ext. eapply ext_trans; [exact X1 | eapply IHp; eauto].
       * inversion H; subst. apply ext_refl.
+      * inversion H; subst. apply ext_refl.
+      * simpl in Hna. apply andb_prop in Hna. destruct Hna as [Hi Hc].
+        destruct (exec_opt n init E out) as [|o1 E1 out1] eqn:Hinit; [discriminate|].
+        assert (X1 : ext_of X E E1) by (eapply IHo; eauto).
+        destruct o1; try (inversion H; subst; apply ext_restore_ext; exact X1).
+        destruct (eval_tag E1 tag) as [tv|]; [|inversion H; subst; apply ext_restore_ext; exact X1].
+        destruct (select E1 tv cls 0) as [sel|]; [|inversion H; subst; apply ext_restore_ext; exact X1].
+        destruct (match sel with Some i => Some i | None => default_index cls 0 end) as [i|];
+          [|inversion H; subst; apply ext_restore_ext; exact X1].
+        destruct (run_clauses (exec_list n) (skipn i cls) E1 out1) as [|o2 E2 out2] eqn:Hr; [discriminate|].
+        assert (X2 : ext_of X E1 E2) by (eapply run_clauses_ext; [exact IHl | exact Hr | apply forallb_skipn; exact Hc]).
+        destruct o2; inversion H; subst; apply ext_restore_ext; eapply ext_trans; eauto.
       * inversion H; subst. apply ext_refl.
     + intros l E out o E' out' H Hna. destruct l as [|s l]; simpl in H; [inversion H; subst; apply ext_refl|].
       simpl in Hna. apply andb_prop in Hna. destruct Hna as [Hs Hl].
@@ -214,6 +274,10 @@ Proof.
   - assert (A : forall l, Forall (fun s => na no_filter s = true) l -> forallb (na no_filter) l = true).
     { intros l Hl. apply forallb_forall. intros s Hs. rewrite Forall_forall in Hl. auto. }
     rewrite (A body H1). destruct init; destruct post; simpl in *; rewrite ?H, ?H0; auto.
+  - assert (A : forall l, Forall (fun s => na no_filter s = true) l -> forallb (na no_filter) l = true).
+    { intros l Hl. apply forallb_forall. intros s Hs. rewrite Forall_forall in Hl. auto. }
+    rewrite (A cls H0). destruct init; simpl in *; rewrite ?H; auto.
+  - apply forallb_forall. intros s Hs. rewrite Forall_forall in H. auto.
 Qed.
 
 Lemma na_list_no_filter l : forallb (na no_filter) l = true.
